@@ -5,6 +5,7 @@ import (
 	"go/constant"
 	"go/types"
 	"sort"
+	"strconv"
 	"strings"
 	"text/template/parse"
 
@@ -216,6 +217,52 @@ func checkC17(cx *Ctx, r *Report) {
 					r.Check(okT, "R-TPL", "execute:"+w.FuncKey(fn), w.InstrPos(c), "executed with the checked data struct", "a template is executed with data other than the checked form structs")
 				}
 			}
+		}
+	}
+	// each page is rendered with its own template: the IdentityProvider's post / logout template is the parsed constant
+	// of that name (or the configured replacement of that name), and the reply objects take the matching one
+	if ni := w.Func("provider.NewIdentityProvider"); ni != nil {
+		nvf := cx.newVFlow("tpl:NewIdentityProvider", ni)
+		for _, tp := range []struct{ field, constName, confField string }{{"postTemplate", "postTemplate", "PostTemplate"}, {"logoutTemplate", "logoutTemplate", "LogoutTemplate"}} {
+			txt, _ := w.pkgConst("provider", tp.constName)
+			ls, sites := nvf.FieldStoreSources("provider.IdentityProvider", tp.field)
+			if len(sites) == 0 {
+				r.Fail("R-TPL", "pairing:IdentityProvider."+tp.field, "", "the field is not filled by NewIdentityProvider")
+				continue
+			}
+			bad := ""
+			for _, l := range ls.leaves() {
+				switch {
+				case strings.HasPrefix(l, "ext:(*template.Template).Parse("):
+					if !strings.Contains(l, strconv.Quote(txt)) {
+						bad = "is parsed from a text other than the constant " + tp.constName
+					}
+				case strings.HasSuffix(l, "/#1."+tp.confField):
+				case l == "const:zero":
+				default:
+					bad = "can hold " + l
+				}
+			}
+			r.Check(bad == "", "R-TPL", "pairing:IdentityProvider."+tp.field, w.InstrPos(sites[0]), "the parsed constant "+tp.constName+" or the configured "+tp.confField, "IdentityProvider."+tp.field+" "+bad+": the page is rendered with a template whose substitutions are not the fields of the data it is given")
+		}
+	}
+	for _, rt := range []struct{ owner, field, from string }{{"provider.Response", "PostTemplate", ".postTemplate"}, {"provider.LogoutResponse", "LogoutTemplate", ".logoutTemplate"}} {
+		for _, hk := range []string{kSSO, kCallback, kLogout} {
+			hvf := cx.vflow(hk)
+			if hvf == nil {
+				continue
+			}
+			ls, sites := hvf.FieldStoreSources(rt.owner, rt.field)
+			if len(sites) == 0 {
+				continue
+			}
+			bad := ""
+			for _, l := range ls.leaves() {
+				if !strings.HasSuffix(l, "/#0"+rt.from) && l != "const:zero" {
+					bad = l
+				}
+			}
+			r.Check(bad == "", "R-TPL", "pairing:"+rt.owner+"."+rt.field+"@"+w.FuncKey(w.Func(hk)), w.InstrPos(sites[0]), "the provider's"+rt.from, rt.owner+"."+rt.field+" is taken from "+bad+", not from the provider's"+rt.from)
 		}
 	}
 	r.Check(nParse == 2, "R-TPL", "#parse-calls", "", "both built-in templates are parsed", fmt.Sprintf("%d template Parse calls found (expected the two built-in templates)", nParse))
